@@ -65,7 +65,8 @@ RULE = (
     'type-tag overrides with unbalanced brackets, bad UTF-8, inserted/'
     'appended bytes, or raw byte strings; non-trivial = the mutated packet '
     'still starts with "#bundle\\0" or "/" and differs from the valid one. '
-    'Distinct by sha1 of the canonical case JSON.')
+    'Distinct by sha1 of the canonical case JSON.'
+    ' tcp stage: responders and messages delivered over a NetAddr.connect() TCP connection from a local peer.')
 ASSUMPTIONS = [
     'The message address is the pattern and the responder path the plain '
     'address (OSC 1.0; OscFunc.matching docstring: "path should not contain '
